@@ -234,6 +234,22 @@ Theorem C11_restart_session : forall A gunzip (validate : bytes -> js_outcome A)
 Proof. exact restart_session_sec. Qed.
 Print Assumptions C11_restart_session.
 
+(* restoring = load ; unlink ; apply.  Whether the state file is consumed does not depend on
+   whether the decoded state can be applied: a file that parses but cannot be applied is
+   removed like any other, so the NEXT start is clean as well.  The other order is refuted. *)
+Theorem C11_restore_consumes_file : forall (A : Type) (k : fkind) (unlink_ok apply_raises : bool) (o : decode_outcome A),
+  snd (core_restore k unlink_ok apply_raises o) = snd (core_load k unlink_ok o) /\
+  (k = FRegular -> unlink_ok = true -> snd (core_restore k unlink_ok apply_raises o) = false) /\
+  (k = FMissing -> snd (core_restore k unlink_ok apply_raises o) = false).
+Proof. exact core_restore_consumes_lemma. Qed.
+Print Assumptions C11_restore_consumes_file.
+
+Theorem C11_late_unlink_refuted :
+  snd (core_restore_late_unlink FRegular true true (DOk tt)) = true /\
+  snd (core_restore FRegular true true (DOk tt)) = false.
+Proof. exact late_unlink_refuted_lemma. Qed.
+Print Assumptions C11_late_unlink_refuted.
+
 (* The code before the fix commits (kept machine-checked): *)
 Theorem C11_dump_old_refuted :
   exists old new k,
@@ -243,6 +259,17 @@ Theorem C11_dump_old_refuted :
     Some [] <> old /\ [] <> new.
 Proof. exact dump_old_refuted_lemma. Qed.
 Print Assumptions C11_dump_old_refuted.
+
+(* the code between the two load fixes: a tl_track object without tlid/track (TypeError from
+   the model's __init__) escaped, the file stayed *)
+Theorem C11_load_typeerror_refuted :
+  exists o : decode_outcome unit,
+    outcome_fits FRegular o = true /\
+    is_raise (load_no_typeerror o) = true /\
+    snd (core_load_with load_no_typeerror FRegular true o) = true /\
+    load o = Ok None.
+Proof. exact load_no_typeerror_refuted_lemma. Qed.
+Print Assumptions C11_load_typeerror_refuted.
 
 Theorem C11_load_old_refuted :
   exists o : decode_outcome unit,
